@@ -640,3 +640,115 @@ Proof.
   split; [exact bx_ss_local|exact bx_ss_full].
 Qed.
 Print Assumptions C04_bridge_example.
+
+(* ==== the VALUE of the three-layer diagram <psi| H |psi> (Contr/ThreeLayerValue*.v) ================================================ *)
+From PTN Require Import Contr.ThreeLayerValue Contr.ThreeLayerValueProofs.
+
+(* THE FUSED FLAT FORM.  State s (extended store invariant wfs; wf_three says: one open leg per node), operator store op on the same
+   tree t (wf_three: same parent relation, children of every operator node ANY rearrangement of the state's, two open legs
+   (output, input) last), the three wire ranges separated (state wires < next_wire s <= operator wires < woff <= conjugate copy),
+   any world Wr/Dm that reads the atoms of the state, of the operator and of the conjugate copy on their own wires.  Then the model
+   of expectation_value(state, ttno) succeeds with a CLOSED diagram whose value, over any commutative semiring, is
+     three_flat = SUM over the three copies (ket, operator, conjugate) of every tree edge and over one index per glued pair of
+                  physical wires (ket physical ~ operator input, operator output ~ conjugate physical; at the root the second pair
+                  is recorded from the conjugate side) of PROD over the nodes of (ket tensor)(operator tensor)(conjugate ket tensor),
+   every tensor read through the gluing.  Nothing in three_flat depends on a child order. *)
+Theorem C04_ttno_expectation_value_flat : forall (R : Type) (zero one : R) (add mul : R -> R -> R),
+  comm_semiring zero one add mul ->
+  forall (woff aoff : nat) (s op : store) (t : rt) (tbl : nat -> list nat -> R) (Wr : nat -> list wire) (Dm : wire -> nat),
+  wfs s -> wfs op -> next_wire s <= woff -> op_above (next_wire s) op -> next_wire op <= woff ->
+  wf_three woff s op t ->
+  (forall a, In a (total_atoms s) -> Wr a = atom_wires s a) ->
+  (forall a, In a (total_atoms op) -> Wr a = atom_wires op a) ->
+  (forall a, In a (total_atoms s) -> Wr (aoff + a) = map (Nat.add woff) (atom_wires s a)) ->
+  exists g, expectation_value woff aoff s op = Some g /\ gaxes g = [] /\
+    forall rho, gvalue R zero one add mul Wr Dm tbl g rho = three_flat R zero one add mul Wr Dm tbl woff aoff s op t rho.
+Proof. exact ttno_expectation_value_flat. Qed.
+Print Assumptions C04_ttno_expectation_value_flat.
+
+(* the same in the world of the three stores (atom tables and dimensions of s, op and the conjugate copy), the tree read off the
+   state and the pairing hypothesis through the executable checker three_ok *)
+Theorem C04_ttno_expectation_value_flat_world : forall (R : Type) (zero one : R) (add mul : R -> R -> R),
+  comm_semiring zero one add mul ->
+  forall (woff aoff : nat) (s op : store) (tbl : nat -> list nat -> R),
+  wfs s -> wfs op -> next_wire s <= woff -> op_above (next_wire s) op -> next_wire op <= woff ->
+  next_atom s <= aoff -> next_atom op <= aoff -> (forall a, In a (total_atoms op) -> next_atom s <= a) ->
+  three_ok woff s op = true ->
+  exists t g, ket_tree s = Some t /\ expectation_value woff aoff s op = Some g /\ gaxes g = [] /\
+    forall rho, gvalue R zero one add mul (three_world woff aoff s op) (three_dim woff aoff s op) tbl g rho
+                = three_flat R zero one add mul (three_world woff aoff s op) (three_dim woff aoff s op) tbl woff aoff s op t rho.
+Proof. exact ttno_expectation_value_flat_world. Qed.
+Print Assumptions C04_ttno_expectation_value_flat_world.
+
+(* the fusion step behind it: a family of tensors whose summed wires are private (not an axis of any member, not summed in another
+   member) under a gluing that only touches axes -- the sums inside the tensors move out of the product *)
+Theorem C04_fuse_items : forall (R : Type) (zero one : R) (add mul : R -> R -> R), comm_semiring zero one add mul ->
+  forall (Wr : nat -> list wire) (Dm : wire -> nat) (tbl : nat -> list nat -> R)
+         (A : Type) (d : A -> sarr) (G : list (wire * wire)) (items : list A),
+  NoDup items ->
+  (forall i a y, In i items -> In a (atoms (d i)) -> In y (Wr a) -> In y (axes (d i)) \/ In y (bnd (d i))) ->
+  (forall i j b, In i items -> In j items -> In b (bnd (d i)) -> ~ In b (axes (d j))) ->
+  (forall i j b, In i items -> In j items -> i <> j -> In b (bnd (d i)) -> ~ In b (bnd (d j))) ->
+  (forall p, In p G -> (exists i, In i items /\ In (fst p) (axes (d i))) /\ (exists j, In j items /\ In (snd p) (axes (d j)))) ->
+  forall rho,
+  sum_bnd R zero add Dm (flat_map (fun i => bnd (d i)) items)
+    (fun r => atoms_val R one mul Wr tbl (flat_map (fun i => atoms (d i)) items) (glue_asg G r)) rho
+  = prod_over R one mul (fun i => value R zero one add mul Wr Dm tbl (d i) (glue_asg G rho)) items.
+Proof. exact fuse_items. Qed.
+Print Assumptions C04_fuse_items.
+
+(* COROLLARY: the value does not depend on the child orders of the state (hence of its conjugate copy) and of the operator.  Two
+   (state, operator) pairs over trees with the same root and the same nodes that hold the same data at every node (atoms, inner
+   sums, edge wires, physical wires), in any child orders: both contractions succeed and the closed diagrams have the same value *)
+Theorem C04_ttno_expectation_child_orders : forall (R : Type) (zero one : R) (add mul : R -> R -> R),
+  comm_semiring zero one add mul ->
+  forall (woff aoff : nat) (s op s' op' : store) (t t' : rt) (tbl : nat -> list nat -> R) (Wr : nat -> list wire) (Dm : wire -> nat),
+  wfs s -> wfs op -> next_wire s <= woff -> next_wire op <= woff ->
+  wf_three woff s op t -> wf_three woff s' op' t' ->
+  rid t = rid t' -> Permutation (rnodes t) (rnodes t') ->
+  (forall m, In m (rnodes t) ->
+     t_atoms s m = t_atoms s' m /\ t_bnd s m = t_bnd s' m /\ up_wire s m = up_wire s' m /\ open_wire s m = open_wire s' m /\
+     t_atoms op m = t_atoms op' m /\ t_bnd op m = t_bnd op' m /\ up_wire op m = up_wire op' m /\
+     out_wire op m = out_wire op' m /\ in_wire op m = in_wire op' m) ->
+  exists g g', expectation_value woff aoff s op = Some g /\ expectation_value woff aoff s' op' = Some g' /\
+    forall rho, gvalue R zero one add mul Wr Dm tbl g rho = gvalue R zero one add mul Wr Dm tbl g' rho.
+Proof. exact ttno_expectation_child_orders. Qed.
+Print Assumptions C04_ttno_expectation_child_orders.
+
+(* non-vacuity and both sides evaluated: root 0 with children 1, 2, bond dimensions 2 and 3 (state) / 2 and 3 (operator, the root's
+   children in the OPPOSITE order), physical dimension 2, arbitrary non-symmetric integer tensors (tx_tbl).  The hypotheses hold
+   (tx_hyp); the diagram of expectation_value (12 summed wires, 13824 terms) and the flat form evaluate to the same integer *)
+Example C04_ttno_flat_example :
+  tx_hyp tx_op = true /\
+  tx_lhs tx_op = Some (-732275630062126920)%Z /\ tx_rhs tx_op = Some (-732275630062126920)%Z.
+Proof. split; [exact tx_hyp_ok|]. split; [exact tx_lhs_value|exact tx_rhs_value]. Qed.
+Print Assumptions C04_ttno_flat_example.
+
+(* the pairing hypothesis wf_three is a CONSEQUENCE of the store invariants: a wfs state with one open leg per node, a wfs operator
+   store with two open legs per node, the same root, at every node the same parent and the state's children in ANY order, the
+   operator's wires allocated above the state's and below woff *)
+Theorem C04_wf_three_of_wf : forall (woff : nat) (s op : store),
+  wfs s -> wfs op -> one_open s -> two_open op -> root op = root s ->
+  (forall k n, aget k (nodes s) = Some n ->
+     exists on, aget k (nodes op) = Some on /\ parent on = parent n /\ Permutation (children on) (children n)) ->
+  op_above (next_wire s) op -> next_wire op <= woff -> 0 < woff ->
+  exists t, ket_tree s = Some t /\ wf_three woff s op t /\ Permutation (rnodes t) (akeys (nodes s)).
+Proof. exact wf_three_of_wf. Qed.
+Print Assumptions C04_wf_three_of_wf.
+
+(* ... so the flat form holds with every hypothesis stated on the two stores *)
+Theorem C04_ttno_expectation_value_flat_wf : forall (R : Type) (zero one : R) (add mul : R -> R -> R),
+  comm_semiring zero one add mul ->
+  forall (woff aoff : nat) (s op : store) (tbl : nat -> list nat -> R) (Wr : nat -> list wire) (Dm : wire -> nat),
+  wfs s -> one_open s -> wfs op -> two_open op -> root op = root s ->
+  (forall k n, aget k (nodes s) = Some n ->
+     exists on, aget k (nodes op) = Some on /\ parent on = parent n /\ Permutation (children on) (children n)) ->
+  0 < woff -> next_wire s <= woff -> op_above (next_wire s) op -> next_wire op <= woff ->
+  (forall a, In a (total_atoms s) -> Wr a = atom_wires s a) ->
+  (forall a, In a (total_atoms op) -> Wr a = atom_wires op a) ->
+  (forall a, In a (total_atoms s) -> Wr (aoff + a) = map (Nat.add woff) (atom_wires s a)) ->
+  exists t g, ket_tree s = Some t /\ Permutation (rnodes t) (akeys (nodes s)) /\
+    expectation_value woff aoff s op = Some g /\ gaxes g = [] /\
+    forall rho, gvalue R zero one add mul Wr Dm tbl g rho = three_flat R zero one add mul Wr Dm tbl woff aoff s op t rho.
+Proof. exact ttno_expectation_value_flat_wf. Qed.
+Print Assumptions C04_ttno_expectation_value_flat_wf.
